@@ -24,10 +24,10 @@ import (
 )
 
 const (
-	c12Quick    = 540  // 300 schedule configs + 60 ctx give-up + 60 MaxElapsedTime give-up + 60 concurrent + 60 elapsed-inside-wait
+	c12Quick    = 540   // 300 schedule configs + 60 ctx give-up + 60 MaxElapsedTime give-up + 60 concurrent + 60 elapsed-inside-wait
 	c12Thorough = 54000 // 5000 + 1000 + 1000 + 1000 + 1000
-	c12Stride   = 9    // idx%9: 0..4 schedule, 5 ctx, 6 elapsed, 7 concurrent, 8 elapsed inside a wait
-	c12BigMR    = 2000 // MaxRetries of the MaxElapsedTime class
+	c12Stride   = 9     // idx%9: 0..4 schedule, 5 ctx, 6 elapsed, 7 concurrent, 8 elapsed inside a wait
+	c12BigMR    = 2000  // MaxRetries of the MaxElapsedTime class
 	retryFrame  = "Retry.Middleware"
 	hour        = time.Hour
 )
